@@ -187,6 +187,26 @@ AnnotLaws == (done /\ k > NF) =>
                                    ELSE LET pp == Path(tax, tax.parent[x]) IN PathText(tax, pp, Len(pp)) \o "|" \o own
   /\ exp.fails <=> (NeedsTaxon(O) /\ (k - NF) % 2 = 0)        \* even = the run with the unknown ids
 
+
+(* --add-lca-in: with zero tolerance the exact LCA of C14 and the error 0 are the only answer accepted; the exact  *)
+(* LCA is acceptable under every tolerance; a larger tolerance accepts more; the attribute names                 *)
+BagOf(ids) == [i \in 1..Len(ids) |-> <<ids[i], 1 + (ids[i] % 3)>>]
+LcaLaws == (done /\ k = NF + 1) =>
+  LET all == RIds(tax)
+      bags == { BagOf(all), BagOf(SubSeq(all, 1, 1)), BagOf(SubSeq(all, Len(all) - ((Len(all) + 1) \div 2) + 1, Len(all))) }
+  IN /\ \A bag \in bags :
+          LET x == SeqLCA(tax, { bag[i][1] : i \in 1..Len(bag) }) IN
+          /\ IsBag(tax, bag)
+          /\ \A c \in Node(tax), v \in 0..2 : LcaAccepts(tax, bag, 0, c, v) <=> (c = x /\ v = 0)
+          /\ \A E \in {50, 500} : LcaAccepts(tax, bag, E, x, 0)
+          /\ \A c \in Node(tax), v \in {0, 40, 300} :
+                /\ LcaAccepts(tax, bag, 50, c, v) => LcaAccepts(tax, bag, 500, c, v)
+                /\ LcaAccepts(tax, bag, 500, c, v) => 2 * BagWeight(tax, bag, c) + 1 >= BagWeight(tax, bag, Root(tax))
+     /\ LcaKeys("lca") = [taxid |-> "lca_taxid", name |-> "lca_name", error |-> "lca_error"]
+     /\ LcaKeys("taxid") = [taxid |-> "taxid", name |-> "scientific_name", error |-> "lca_error"]
+     /\ LcaKeys("family_taxid") = [taxid |-> "family_taxid", name |-> "family_name", error |-> "family_error"]
+     /\ LcaKeys("my") = [taxid |-> "my_taxid", name |-> "my_name", error |-> "my_error"]
+
 (* the verdict operators accept the expected output in any order inside a block, and refuse a line lost, doubled, *)
 (* or moved to another block                                                                                      *)
 SetToSeq(S) == LET f[s \in SUBSET S] == IF s = {} THEN <<>> ELSE LET e == CHOOSE e \in s : TRUE IN <<e>> \o f[s \ {e}] IN f[S]
